@@ -393,37 +393,40 @@ theorem C19_elastic_throws (op : Op) (a b : Int) (k : ExcKind) :
     · have hb' : (b == 0) = false := by simpa using hb
       cases op <;> simp [hb']
 
-/-- einteger and edecimal: the quiet build's message appears for exactly the operands the throwing build throws for. -/
+/-- einteger, edecimal and erational (code after fix 08c03f8): the quiet build's message on std::cerr appears for exactly
+    the operands the throwing build throws for. -/
 theorem C19_elastic_quiet_signal (op : Op) (a b : Int) :
     (Elastic.eintPrologue op a b).qStderr = ((Elastic.eintPrologue op a b).throws).isSome ∧
-    (Elastic.edecPrologue op a b).qStderr = ((Elastic.edecPrologue op a b).throws).isSome := by
-  constructor
+    (Elastic.edecPrologue op a b).qStderr = ((Elastic.edecPrologue op a b).throws).isSome ∧
+    (Elastic.eratPrologue op a b).qStderr = ((Elastic.eratPrologue op a b).throws).isSome := by
+  refine ⟨?_, ?_, ?_⟩
   · unfold Elastic.eintPrologue
     cases op <;> simp only [] <;> cases (b == 0) <;> simp
   · unfold Elastic.edecPrologue
     cases op <;> simp only [] <;> cases (b == 0) <;> simp
+  · unfold Elastic.eratPrologue
+    cases op <;> simp only [] <;> cases (b == 0) <;> simp
 
-/-- C19 for the elastic integer types, in terms of the two builds (erational: `+ - * /`). -/
+/-- C19 for the elastic types, in terms of the two builds (erational: `+ - * /`), including the quiet-mode signal: for all
+    three types the message on std::cerr is written exactly when the throwing build throws. -/
 theorem C19_elastic (op : Op) (a b : Int) (core : String) :
     (∀ r, runT (Elastic.eintPrologue op a b) core = .val r → runQ (Elastic.eintPrologue op a b) core = .val r) ∧
     (∀ k, runT (Elastic.eintPrologue op a b) core = .thrown k ↔ (ElasticSpec.err op a b = true ∧ k = .einteger_divide_by_zero)) ∧
     (∀ r, runT (Elastic.edecPrologue op a b) core = .val r → runQ (Elastic.edecPrologue op a b) core = .val r) ∧
     (∀ k, runT (Elastic.edecPrologue op a b) core = .thrown k ↔ (ElasticSpec.err op a b = true ∧ k = .edecimal_integer_divide_by_zero)) ∧
     (∀ r, runT (Elastic.eratPrologue op a b) core = .val r → runQ (Elastic.eratPrologue op a b) core = .val r) ∧
-    (op ≠ .rem → ∀ k, runT (Elastic.eratPrologue op a b) core = .thrown k ↔ (ElasticSpec.err op a b = true ∧ k = .erational_divide_by_zero)) :=
+    (op ≠ .rem → ∀ k, runT (Elastic.eratPrologue op a b) core = .thrown k ↔ (ElasticSpec.err op a b = true ∧ k = .erational_divide_by_zero)) ∧
+    ((Elastic.eintPrologue op a b).qStderr = ((Elastic.eintPrologue op a b).throws).isSome ∧
+     (Elastic.edecPrologue op a b).qStderr = ((Elastic.edecPrologue op a b).throws).isSome ∧
+     (Elastic.eratPrologue op a b).qStderr = ((Elastic.eratPrologue op a b).throws).isSome) :=
   ⟨fun r => (C19_elastic_value op a b core r).1,
    fun k => (runT_thrown_iff _ core k).trans (C19_elastic_throws op a b k).1,
    fun r => (C19_elastic_value op a b core r).2.1,
    fun k => (runT_thrown_iff _ core k).trans (C19_elastic_throws op a b k).2.1,
    fun r => (C19_elastic_value op a b core r).2.2,
-   fun hop k => (runT_thrown_iff _ core k).trans ((C19_elastic_throws op a b k).2.2 hop)⟩
+   fun hop k => (runT_thrown_iff _ core k).trans ((C19_elastic_throws op a b k).2.2 hop),
+   C19_elastic_quiet_signal op a b⟩
 
-def C19_erational_quiet_signal_full : Prop :=
-  ∀ (op : Op) (a b : Int), (Elastic.eratPrologue op a b).qStderr = ((Elastic.eratPrologue op a b).throws).isSome
-
-/-- erational (D15): `1 + 1` writes `erational_divide_by_zero` to std::cerr in the quiet build. -/
-theorem C19_erational_quiet_signal_counterexample : ¬ C19_erational_quiet_signal_full := by
-  intro h
-  exact absurd (h .add 1 1) (by decide)
-
+example : (Elastic.eratPrologue .add 1 1).qStderr = false ∧ (Elastic.eratPrologue .div 1 0).qStderr = true ∧
+    runT (Elastic.eratPrologue .div 1 0) "x" = .thrown .erational_divide_by_zero := by decide
 example : runT (Elastic.eintPrologue .div 42 0) "x" = .thrown .einteger_divide_by_zero ∧ runQ (Elastic.eintPrologue .div 42 0) "x" = .val "0" := by decide
